@@ -43,7 +43,7 @@ func HarnessC14() {
 		hb[i] = 'h'
 	}
 	head := string(hb)
-	src, full := "{{ head }}", head
+	src, full := "x{{ head }}", "x"+head // literal text is already buffered when the large value arrives
 	for j := 1; j <= k; j++ {
 		t := string([]byte{'a' + byte(j)})
 		src += t + "{{ f(" + itoa(j) + ") }}"
